@@ -62,6 +62,23 @@ func targetOutsideRootBody(p *Prog, r *Report, rule string) {
 				}, deriveOpts{})
 			}
 		}
+		if c, isC := inner.(*ssa.Call); ok && isC && len(c.Call.Args) == 2 {
+			// the marker that stands for the root cannot occur in a target: it is a fresh random
+			// identifier (a constant one can be written into a link target, which then "contains the
+			// marker" although it climbed out of the root)
+			fresh := derivesFrom(c.Call.Args[1], func(x ssa.Value) bool {
+				uc, isU := x.(*ssa.Call)
+				if !isU {
+					return false
+				}
+				ur := refOf(uc.Common())
+				return (ur.Pkg == "github.com/google/uuid" && (ur.Name == "New" || ur.Name == "NewString" || ur.Name == "NewRandom" || ur.Name == "Must")) || ur.Pkg == "crypto/rand"
+			}, deriveOpts{throughCall: func(cc *ssa.CallCommon) bool {
+				ur := refOf(cc)
+				return ur.Pkg == "github.com/google/uuid" || ur.Pkg == "fmt" || ur.Pkg == "encoding/hex" || ur.Pkg == "strings" || ur.Pkg == "path/filepath" || ur.Pkg == "path"
+			}})
+			r.Check(fresh, rule, site+":marker-unguessable", p.Pos(ret.Pos()), "the root marker is a fresh random identifier", "the marker directory that stands for the root in TargetOutsideRoot is not a fresh random value: a link target that contains the marker text passes the containment test although it leaves the root (\"../../<marker>/etc/passwd\")")
+		}
 		r.Check(ok, rule, site, p.Pos(ret.Pos()), "answer = marker test on Join(marker, …, target)", "TargetOutsideRoot answers on some path without examining the joined, cleaned path of the target (a constant or a test on the raw target text): a target that climbs out after a harmless first component is accepted, and the symlink kept in the unpacked tree resolves outside it")
 	}
 	r.Instances(rule, "returns of symlink.TargetOutsideRoot", n, 1)
